@@ -1,19 +1,35 @@
 /- GENERATED: instance obligations for one logic, discharged by kernel evaluation.
-   `X ⊆ known`: every failing row is a committed known finding (Ptx/Gen/Known.lean). -/
+   `S` = the logic with its DOCUMENTED tables (Ptx/Sem/Spec.lean); rules, closure, trunk and frames
+   are what the translator read off the code.  `X ⊆ known`: every failing row is a committed
+   known finding (Ptx/Gen/Known.lean, generated from known_findings.json). -/
 import Ptx.Gen.L_S5LP
 import Ptx.Gen.Known
 import Ptx.Sem.Subset
+import Ptx.Props.C01
+import Ptx.Gen.L_LP
 namespace Ptx.Gen.Obl.S5LP
 open Ptx
 
-theorem tables_total : Gen.S5LP.tablesTotalB = true := by decide +kernel
-theorem rules_exact : subsetB Gen.S5LP.badRules (Known.badRules "S5LP") = true := by decide +kernel
-theorem rules_sound : subsetB Gen.S5LP.unsoundRules (Known.unsoundRules "S5LP") = true := by decide +kernel
-theorem rules_total : subsetB Gen.S5LP.missingRules (Known.missingRules "S5LP") = true := by decide +kernel
-theorem rules_local : Gen.S5LP.nonLocalRules = [] := by decide +kernel
-theorem closure_total : Gen.S5LP.closureTotalB = true := by decide +kernel
-theorem closure_exact : subsetB Gen.S5LP.badClosure (Known.badClosure "S5LP") = true := by decide +kernel
-theorem read_total : Gen.S5LP.readTotalB = true := by decide +kernel
-theorem read_exact : subsetB Gen.S5LP.badRead (Known.badRead "S5LP") = true := by decide +kernel
+/-- a modal / first-order extension has exactly the truth-functional tables of its base (LP) -/
+theorem base_tables : Gen.S5LP.tables.sameTF Gen.LP.tables = true := by decide +kernel
+theorem spec_defined : Gen.S5LP.specDefinedB = true := by decide +kernel
+theorem tables_spec : subsetB Gen.S5LP.tableDiff (Known.tableDiff "S5LP") = true := by decide +kernel
+theorem defined_ops : Gen.S5LP.tables.definedOpsBad = [] := by decide +kernel
+theorem tables_total : Gen.S5LP.sem.tablesTotalB = true := by decide +kernel
+theorem rules_exact : subsetB Gen.S5LP.sem.badRules (Known.badRules "S5LP") = true := by decide +kernel
+theorem rules_sound : subsetB Gen.S5LP.sem.unsoundRules (Known.unsoundRules "S5LP") = true := by decide +kernel
+theorem rules_total : subsetB Gen.S5LP.sem.missingRules (Known.missingRules "S5LP") = true := by decide +kernel
+theorem rules_local : Gen.S5LP.sem.nonLocalRules = [] := by decide +kernel
+theorem closure_total : Gen.S5LP.sem.closureTotalB = true := by decide +kernel
+theorem closure_exact : subsetB Gen.S5LP.sem.badClosure (Known.badClosure "S5LP") = true := by decide +kernel
+theorem read_total : Gen.S5LP.sem.readTotalB = true := by decide +kernel
+theorem read_exact : subsetB Gen.S5LP.sem.badRead (Known.badRead "S5LP") = true := by decide +kernel
+theorem sound_core : Gen.S5LP.sem.soundCoreB = true := by decide +kernel
+
+/-- C01 for this logic: a closed tableau reached by any legal derivation has no countermodel. -/
+theorem c01_valid_sound (arg : Argument) (t : Tableau)
+    (hd : Deriv Gen.S5LP.sem.soundPart.noQuantPart (trunk Gen.S5LP.sem arg) t) (hclosed : t.allClosed = true)
+    (M : Struct) (hM : M.Interp Gen.S5LP.sem) (e : Env M.D) (w0 : M.W) : ¬ Countermodel Gen.S5LP.sem M e w0 arg :=
+  Props.C01.C01_valid_sound_partial Gen.S5LP.sem sound_core arg t hd hclosed M hM e w0
 
 end Ptx.Gen.Obl.S5LP
